@@ -3,7 +3,7 @@ use std::collections::HashSet;
 
 use bytes::Bytes;
 use melstf::SealedState;
-use melstructs::{Address, Block, CoinData, CoinValue, Denom, NetID, Transaction, TxHash, TxKind};
+use melstructs::{Address, Block, BlockHeight, CoinData, CoinDataHeight, CoinID, CoinValue, Denom, NetID, Transaction, TxHash, TxKind};
 use novasmt::Database;
 use serde_json::json;
 use stdcode::StdcodeSerializeExt;
@@ -75,7 +75,7 @@ struct Lineage {
 
 pub fn run(p: &Params) -> Report {
     let mut rep = Report::new("C19");
-    rep.rule = "cases = faucet applications: on each of the 9 network ids a history of up to 30 blocks in which faucet transactions of many shapes (0-255 outputs, all denominations, data, with and without authorised inputs, the grandfathered mainnet transaction on every network) are applied and then replayed in the same batch, in a later batch of the same block, 1-30 blocks later, with a different sigs field, inside a batch among other transactions, and after a restart through from_block (copied store). Oracle: on mainnet only the grandfathered hash may be accepted; elsewhere each hash_nosigs is accepted at most once per lineage. Non-trivial = every replay attempt; distinct by (network, hash, replay point)".into();
+    rep.rule = "cases = faucet applications: on each of the 9 network ids a history of up to 30 blocks in which faucet transactions of many shapes (0-255 outputs, all denominations, data, with and without authorised inputs, the grandfathered mainnet transaction on every network) are applied and then replayed in the same batch, in a later batch of the same block, 1-30 blocks later, with a different sigs field, inside a batch among other transactions, and after a restart through from_block (copied store). Oracle: on mainnet only the grandfathered hash may be accepted; elsewhere each hash_nosigs is accepted at most once per lineage. Ordinary payments name an accepted faucet's duplicate marker among their inputs before the replay. Non-trivial = every replay attempt; distinct by (network, hash, replay point)".into();
     let total = p.n(540, 12000);
     let mine = p.share(total);
     let mut rng = Rng::new(p.shard_seed() ^ 0xC19);
@@ -173,6 +173,30 @@ pub fn run(p: &Params) -> Report {
                 }
                 if r.chance(1, 2) {
                     attempt(&mut w, &mut lin, &mut rep, vec![f.clone()], "same-block-later-batch", case_seed);
+                }
+            }
+            if w.dead {
+                break;
+            }
+            // an ordinary payment that names an accepted faucet's duplicate marker among its inputs (the marker is a
+            // zero-valued pseudo-coin under the all-zero covenant hash), then the faucet again
+            if !pool.is_empty() && net != NetID::Mainnet && r.chance(1, 3) {
+                let old = pool[r.usize(pool.len())].clone();
+                let marker = CoinID { txhash: TxHash(tmelcrypt::hash_keyed(b"fdp", old.hash_nosigs().0 .0)), index: 0 };
+                let marker_data = CoinDataHeight { coin_data: CoinData { covhash: Address(tmelcrypt::HashVal::default()), value: CoinValue(0), denom: Denom::Mel, additional_data: Bytes::new() }, height: BlockHeight(w.height()) };
+                let mut inputs = w.pick_inputs(&[Denom::Mel], 0);
+                if !inputs.is_empty() {
+                    inputs.push((marker, marker_data));
+                    if let Some(sweeper) = w.complete(TxKind::Normal, inputs, vec![], vec![], 0) {
+                        rep.count("payments naming a faucet's duplicate marker as an input");
+                        let ev = w.apply_batch(vec![sweeper], vec!["marker-sweeper".into()]);
+                        if ev.accepted() {
+                            rep.count("payments naming a faucet's duplicate marker as an input: accepted (C04's business)");
+                        }
+                        if !w.dead {
+                            attempt(&mut w, &mut lin, &mut rep, vec![old.clone()], "after-a-payment-named-its-marker", case_seed);
+                        }
+                    }
                 }
             }
             if w.dead {
